@@ -282,6 +282,36 @@ pub fn run() -> i32 {
     r.boxes.push(json!({"box": "a feature and a length in one output matrix, on short / long / overlong segments", "rules": 26 * 2 * lens8.len(), "cases": t8.evals, "model_predicts_change": t8.nontrivial}));
     r.guard(t8.nontrivial > 10_000, "box 8: more than 10k cases change the word");
     tot.evals += t8.evals; tot.nontrivial += t8.nontrivial; tot.viols.extend(t8.viols); tot.states.extend(t8.states);
+    // ---- box 9: a segment INSERTED with a matrix next to the very segment it is a copy of (`* > t:[+voice] / _ t`): the matrix belongs to the
+    // inserted segment alone; the neighbour keeps its features and its length although the two may look like one long segment
+    {
+        let bases = ["t", "p", "k", "s", "a", "i", "m", "l"];
+        let mut t9 = Acc { evals: 0, nontrivial: 0, viols: vec![], states: Default::default(), fired: 0 };
+        for x in bases { let xb = seg(x); for (fi, f) in FEATS.iter().enumerate() { for val in [true, false] { for after in [true, false] { for nlen in 1..=2usize {
+            let Some(_) = model::feat(xb, fi) else { continue };
+            let nb = model::set_feat(xb, fi, val);
+            if nb == xb { continue; }
+            // the site is named by the OTHER neighbour (/e X.. o/: after the e = in front of the twin, before the o = behind it), so that no
+            // environment item has to be matched against the long segment itself
+            let text = if after { format!("* > {}:[{}{}] / e _", x, if val { "+" } else { "-" }, f.0) } else { format!("* > {}:[{}{}] / _ o", x, if val { "+" } else { "-" }, f.0) };
+            let Out::Ok(Ok(compiled)) = guarded(5_000_000, || av::compile(&[group(&[&text])])) else { continue };
+            let (e_seg, o) = (seg("e"), seg("o"));
+            let mut segs = vec![e_seg]; for _ in 0..nlen { segs.push(xb); } segs.push(o);
+            let w: CW = vec![CSyl { segs: segs.clone(), stress: 0, tone: 0 }];
+            let mut es = segs.clone(); es.insert(if after { 1 } else { 1 + nlen }, nb);
+            let e: CW = vec![CSyl { segs: es, stress: 0, tone: 0 }];
+            t9.evals += 1;
+            match guarded(200_000, || av::apply_group(&compiled, 0, word_of(&w)).map(|x| cw_of(&x))) {
+                Out::Ok(Ok(got)) if got == e => { t9.nontrivial += 1; t9.states.insert(hash64(&(x, fi, val, after, nlen, 99u8))); }
+                Out::Ok(Ok(got)) => t9.viols.push(Viol { key: format!("insert-next-to-twin|{}|{}", text, show_cw(&w)), desc: format!("`{}` on /{}/: expected /{}/ (the inserted segment carries the feature, its neighbour is untouched), got /{}/", text, show_cw(&w), show_cw(&e), show_cw(&got)), case: json!({"rule2": text, "word": cw_json(&w), "expected": cw_json(&e)}) }),
+                Out::Ok(Err(_)) => {}
+                o => t9.viols.push(Viol { key: format!("crash|{}", text), desc: o.crash_desc().unwrap(), case: json!({"rule2": text, "word": cw_json(&w), "expected": cw_json(&e)}) }),
+            }
+        } } } } }
+        r.boxes.push(json!({"box": "a segment inserted with a one-feature matrix next to its own twin (8 phones x 26 features x both values x before / after x neighbour short / long)", "cases": t9.evals, "as_model": t9.nontrivial}));
+        r.guard(t9.nontrivial > 300, "box 9: more than 300 cases as the model says");
+        tot.evals += t9.evals; tot.nontrivial += t9.nontrivial; tot.viols.extend(t9.viols); tot.states.extend(t9.states);
+    }
     // ---- box 6: bindings made by an environment that then fails belong to that attempt only. (a) an environment set whose first alternative binds the
     // alpha on x and then fails on y, while the second binds it on y: `t > [tone:7] / :{ _ [αF] p, _ [] [αF] }:` (both orders) on /t x y/ fires iff
     // (F defined on x and y = p) or F defined on y. (b) insertion between two contexts, `* > ə / [αF] _ [αF]` on /x y z/: a schwa between every
